@@ -614,6 +614,154 @@ fn concurrent_updates(tier: &str, report: &mut Report) -> (u64, u64) {
     (v["harnesses"].as_u64().unwrap_or(0), v["schedules"].as_u64().unwrap_or(0))
 }
 
+/// `c = v` stores v and yields v - v itself, not a value that merely compares equal to it: for
+/// every content type, every ordered pair (u, v) of values of that type (among them pairs that
+/// `==` cannot tell apart: 0.0 / -0.0, empty arrays of different element types, containers of
+/// them), a cell holding u is assigned v, with v written as a literal and passed at run time;
+/// the value the assignment yields and the content read back are compared with v by contents,
+/// float sign and run-time type tag.
+fn store_grid(report: &mut Report) -> u64 {
+    use crate::ty::Ty;
+    use simplesl::variable::Typed;
+    const CELLS: &[(&str, &[&str])] = &[
+        ("float", &["0.0", "(-0.0)", "1.5", "(0.0 / 0.0)", "(1.0 / 0.0)"]),
+        ("int|float", &["0", "0.0", "(-0.0)", "1"]),
+        ("[int]|[float]", &["[0; 0]", "[0.0; 0]", "[1]", "[1.0]"]),
+        ("[int|float]", &["[0; 0]", "[0.0; 0]", "[1][0:0]", "[1, 2.5][0:0]", "[1, 2.5]"]),
+        ("(float, int)", &["(0.0, 1)", "((-0.0), 1)", "(1.5, 1)"]),
+        ("struct{a: float}", &["struct{ a := 0.0 }", "struct{ a := (-0.0) }"]),
+        ("[float]", &["[0.0]", "[(-0.0)]", "[0.0; 0]"]),
+        ("string", &["\"\"", "\"a\""]),
+        ("any", &["0", "0.0", "(-0.0)", "[0; 0]", "[0.0; 0]", "[\"\"; 0]", "()", "\"\"", "false", "([0; 0], 0.0)", "([0.0; 0], (-0.0))"]),
+    ];
+    let interp = Interpreter::with_stdlib();
+    let strict = |v: &Variable| format!("{} :: {}", canon(v), Ty::from_impl(&v.as_type()).print());
+    let mut n = 0u64;
+    for (cell, vals) in CELLS {
+        let cell_ty = if cell.contains('|') && !cell.starts_with('[') || cell.contains("]|[") { format!("({cell})") } else { cell.to_string() };
+        let f_text = format!("f := (c: mut {cell_ty}, v: {cell}) -> any {{ r := (c = v); return (r, *c) }}");
+        let f = match guard(|| Code::parse(&interp, &f_text).map(|c| c.exec())) {
+            Ok(Ok(Ok(Variable::Function(f)))) => Some(f),
+            _ => {
+                report.violation(Violation { sig: format!("C13|store|program-fails|cell={}", cell.replace('|', "/")), detail: json!({"kind": "program", "stdlib": true, "text": f_text}) });
+                None
+            }
+        };
+        for u in vals.iter() {
+            for v in vals.iter() {
+                let Ok(Ok(Ok(want_v))) = guard(|| Code::parse(&interp, v).map(|c| c.exec())) else { continue };
+                let want = format!("({}, {})", strict(&want_v), strict(&want_v));
+                let lit_text = format!("c := mut {cell} {u}; r := (c = {v}); (r, *c)");
+                let rt_text = format!("{f_text}; f(mut {cell} {u}, {v})");
+                let mut forms = vec![("literal", lit_text.clone(), guard(|| Code::parse(&interp, &lit_text).map(|c| c.exec()))), ("parameter", rt_text.clone(), guard(|| Code::parse(&interp, &rt_text).map(|c| c.exec())))];
+                if let Some(f) = &f {
+                    let cell_text = format!("mut {cell} {u}");
+                    if let (Ok(Ok(Ok(cv))), Ok(Ok(Ok(vv)))) = (guard(|| Code::parse(&interp, &cell_text).map(|c| c.exec())), guard(|| Code::parse(&interp, v).map(|c| c.exec()))) {
+                        forms.push(("host-call", format!("{f_text} with ({cell_text}, {v})"), guard(|| f.clone().create_call(vec![cv, vv]).map(|c| c.exec()))));
+                    }
+                }
+                for (form, text, got) in forms {
+                    n += 1;
+                    let got = match got {
+                        Ok(Ok(Ok(Variable::Tuple(t)))) if t.len() == 2 => format!("({}, {})", strict(&t[0]), strict(&t[1])),
+                        Ok(Ok(Ok(o))) => format!("unexpected value {}", canon(&o)),
+                        Ok(Ok(Err(e))) => format!("error:{}", core::exec_error_kind(&e)),
+                        Ok(Err(e)) => format!("rejected:{}", core::error_kind(&e)),
+                        Err(Stop::Panic(p)) => format!("PANIC {} @{}", p.short_msg(), p.file()),
+                        Err(Stop::Exhausted) => continue,
+                    };
+                    if got != want {
+                        report.violation(Violation {
+                            sig: format!("C13|store|{form}|cell={}|old={u}|new={v}", cell.replace('|', "/")),
+                            detail: json!({"kind": "program", "stdlib": true, "text": text, "expected (yielded, content)": want, "observed": got}),
+                        });
+                    }
+                }
+            }
+        }
+    }
+    n
+}
+
+/// `c op= v` stores and yields exactly `*c op v` (the binary operator's own result: same value,
+/// float sign, type tag, same failure, and on failure the cell keeps its content), for every
+/// compound operator over typed value alphabets with the awkward members (0.0 / -0.0, infinities,
+/// NaN, extreme ints, empty arrays of two element types, empty strings).
+fn compound_grid(report: &mut Report) -> u64 {
+    use crate::ty::Ty;
+    use simplesl::variable::Typed;
+    const CELLS: &[(&str, &[&str], &[&str])] = &[
+        ("float", &["0.0", "(-0.0)", "1.5", "(-2.0)", "(0.0 / 0.0)", "(1.0 / 0.0)", "(-1.0 / 0.0)", "0.5"], &["+", "-", "*", "/", "**"]),
+        ("int", &["0", "1", "(-1)", "2", "63", "64", "9223372036854775807", "(-9223372036854775807 - 1)"], &["+", "-", "*", "/", "%", "**", "<<", ">>", "&", "|", "^"]),
+        ("bool", &["true", "false"], &["&", "|", "^"]),
+        ("string", &["\"\"", "\"a\"", "\"é\""], &["+"]),
+        ("[int]", &["[0; 0]", "[1]", "[1, 2]"], &["+"]),
+        ("[int|float]", &["[0; 0]", "[0.0; 0]", "[1]", "[2.5]", "[1, 2.5]"], &["+"]),
+    ];
+    let interp = Interpreter::with_stdlib();
+    let strict = |v: &Variable| format!("{} :: {}", canon(v), Ty::from_impl(&v.as_type()).print());
+    let run = |text: &str| -> Result<String, String> {
+        match guard(|| Code::parse(&interp, text).map(|c| c.exec())) {
+            Ok(Ok(Ok(Variable::Tuple(t)))) => Ok(t.iter().map(|x| strict(x)).collect::<Vec<_>>().join(" ; ")),
+            Ok(Ok(Ok(o))) => Ok(strict(&o)),
+            Ok(Ok(Err(e))) => Err(format!("error:{}", core::exec_error_kind(&e))),
+            // a constant operation that fails is reported when the program is parsed, with the same kind
+            Ok(Err(e)) => Err(format!("error:{}", core::error_kind(&e))),
+            Err(Stop::Panic(p)) => Err(format!("PANIC {} @{}", p.short_msg(), p.file())),
+            Err(Stop::Exhausted) => Err("exhausted".into()),
+        }
+    };
+    let mut n = 0u64;
+    for (cell, vals, ops) in CELLS {
+        for op in ops.iter() {
+            for u in vals.iter() {
+                for v in vals.iter() {
+                    n += 1;
+                    // the operator's own answer, on run-time operands (nothing for the folder to do)
+                    let want = run(&format!("f := (a: {cell}, b: {cell}) -> any {{ return a {op} b }}; x := f({u}, {v}); (x, x)"));
+                    let forms = [
+                        ("literal", format!("c := mut {cell} {u}; r := (c {op}= {v}); (r, *c)")),
+                        ("parameter", format!("f := (c: mut {cell_ty}, v: {cell}) -> any {{ r := (c {op}= v); return (r, *c) }}; f(mut {cell} {u}, {v})", cell_ty = if cell.contains('|') && !cell.starts_with('[') { format!("({cell})") } else { cell.to_string() })),
+                    ];
+                    for (form, text) in forms {
+                        let got = run(&text);
+                        if matches!(&got, Err(e) if e == "exhausted") || matches!(&want, Err(e) if e == "exhausted") {
+                            continue;
+                        }
+                        if got != want {
+                            report.violation(Violation {
+                                sig: format!("C13|compound-store|{form}|cell={}|op={op}=|old={u}|operand={v}", cell.replace('|', "/")),
+                                detail: json!({"kind": "program", "stdlib": true, "text": text, "expected (yielded ; content) = the binary operator's answer": format!("{want:?}"), "observed": format!("{got:?}")}),
+                            });
+                        }
+                    }
+                    // a failing update leaves the content as it was
+                    if want.is_err() {
+                        let text = format!("f := (c: mut {cell}, v: {cell}) -> any {{ return (c {op}= v) }}; c := mut {cell} {u}; g := () -> any {{ return *c }}; (g, f, c)");
+                        if let Ok(Ok(Ok(Variable::Tuple(t)))) = guard(|| Code::parse(&interp, &text).map(|c| c.exec())) {
+                            if let (Variable::Function(f), Ok(Ok(Ok(arg)))) = (&t[1], guard(|| Code::parse(&interp, v).map(|c| c.exec()))) {
+                                let _ = guard(|| f.clone().create_call(vec![t[2].clone(), arg]).map(|c| c.exec()));
+                                let after = match &t[2] {
+                                    Variable::Mut(m) => m.variable.read().map(|g| strict(&g)).unwrap_or_else(|_| "poisoned".into()),
+                                    _ => "not a cell".into(),
+                                };
+                                let before = run(&format!("x := {u}; x")).unwrap_or_default();
+                                if after != before {
+                                    report.violation(Violation {
+                                        sig: format!("C13|compound-store|failed-update-changed-the-cell|cell={cell}|op={op}=|old={u}|operand={v}"),
+                                        detail: json!({"kind": "host_call", "program": format!("(c: mut {cell}, v: {cell}) -> any {{ return (c {op}= v) }}"), "args": [format!("mut {cell} {u}"), v], "expected_content": before, "observed_content": after}),
+                                    });
+                                }
+                            }
+                        }
+                    }
+                }
+            }
+        }
+    }
+    n
+}
+
 pub fn run(tier: &str) -> i32 {
     let thorough = tier == "thorough";
     let mut report = Report::new("C13", tier);
@@ -648,6 +796,8 @@ pub fn run(tier: &str) -> i32 {
     // (the C16 machinery, run here for its shared-cell cases) - exhaustive over their schedules
     let concurrent = concurrent_updates(tier, &mut report);
     let n_closure_cells = core::on_big_stack(|| closure_made_cells(&mut report));
+    let n_store = core::on_big_stack(|| store_grid(&mut report));
+    let n_compound = core::on_big_stack(|| compound_grid(&mut report));
     let transitions = shared.transitions.load(Ordering::Relaxed);
     let outcomes = shared.outcomes.lock().unwrap().len();
     let coverage = json!({
@@ -662,6 +812,8 @@ pub fn run(tier: &str) -> i32 {
         "failing_updates_with_expected_error_and_unchanged_cell": shared.errors_as_expected.load(Ordering::Relaxed),
         "aliasing_scenarios": n_scenarios,
         "cells_made_from_parameters_and_captures": n_closure_cells,
+        "compound_store_cases (c op= v against the binary operator's own answer, by contents, float sign and type tag; failing updates leave the cell)": n_compound,
+        "store_identity_cases (old content x new value incl. ==-indistinguishable pairs, literal / parameter / host call)": n_store,
         "concurrent_update_harnesses_loom": {"harnesses": concurrent.0, "schedules": concurrent.1},
         "dynamic_aliasing_model": {"states": dynamic.states, "transitions": dynamic.transitions, "depth_bound": dynamic.depth, "actions": dynamic.actions, "distinct_observations": dynamic.distinct_observations, "max_live_cells": dynamic.max_cells,
             "rule": "hand-written BFS; a state is (cell contents, cell held by x, y, p.0, p.1, the closure h), canonicalised by renumbering reachable cells; every transition runs the whole history on the real interpreter and compares step result, contents through every path and identity relations (== on cells)"},
